@@ -35,4 +35,5 @@ def check(model, tier):
     sqlplace.r08_3_order_by_scope(ctx, rule="R11.4")
     triviality.r05_2_noop_predicates_agree(ctx, rule="R11.5")
     optional_rules.r_optional_truthiness(ctx, "R11.6", {"limit", "stop", "max_rows"}, ("sql/", "_operations/_slice.py"))
+    sqlplace.r_sort_mapping(ctx, "R11.6")
     return run
